@@ -206,6 +206,9 @@ func (x *exec) run() (f *report.Failure) {
 	x.m = fcmodel.New(cfg.SPE, fcmodel.Checkpoint{Root: ar, Epoch: cfg.FE}, fcmodel.Checkpoint{Root: ar, Epoch: cfg.JE},
 		fcmodel.Ref{Root: ar, Slot: cfg.AnchorSlot}, ap, cfg.Bal)
 	x.ever[ar] = true
+	if cfg.SPE&(cfg.SPE-1) != 0 {
+		x.res.Tags["config:slots-per-epoch-not-a-power-of-two"]++
+	}
 	var foreign *report.Failure
 	for i := range x.c.Ops {
 		op := &x.c.Ops[i]
